@@ -230,5 +230,5 @@ def main(tier):
     js = jobs(common.level("C08", tier))
     if common.level("C08", tier) == "deep":
         js = common.widen(js, by=(1, 2, 5))
-    return common.run_space_check("C08", tier, js, RULE, ASSUME, budget_s=110 if tier == "quick" else 1500,
+    return common.run_space_check("C08", tier, js, RULE, ASSUME, budget_s=480 if tier == "quick" else 3000,
                                   confirm=confirm, witness=witness)
